@@ -23,6 +23,9 @@ def sum_of_squares(
     fill_value=None,
     dtype=None,
 ):
+    if dtype is not None and array.dtype.kind in "iub":
+        # square in the (wider) result dtype, not in the dtype of the input
+        array = array.astype(dtype, copy=False)
     return _get_aggregate(engine).aggregate(
         group_idx,
         array,
@@ -44,6 +47,8 @@ def nansum_of_squares(
     fill_value=None,
     dtype=None,
 ):
+    if dtype is not None and array.dtype.kind in "iub":
+        array = array.astype(dtype, copy=False)
     return _get_aggregate(engine).aggregate(
         group_idx,
         array,
@@ -114,6 +119,9 @@ def _var_std_wrapper(group_idx, array, engine, *, axis=-1, **kwargs):
     # https://en.wikipedia.org/wiki/Algorithms_for_calculating_variance
     # Cast any unsigned types first
     dtype = np.result_type(array, np.int8(-1) * array[0])
+    if dtype.kind in "iu" and dtype.itemsize < 8:
+        # the differences below must not wrap at the width of a narrow integer input
+        dtype = np.dtype(np.int64)
     array = array.astype(dtype, copy=False)
     first = _get_aggregate(engine).aggregate(group_idx, array, func="nanfirst", axis=axis)
     array = array - first[..., group_idx]
